@@ -3,6 +3,7 @@ import Np.Proofs.Index
 import Np.Model.Compare
 import Np.Model.Dims
 import Np.Proofs.LeadArr
+import Np.Proofs.Dims
 /-! C19 — leading-term queries, decomposition, set_dimensions and the sort proxy: property theorems -/
 namespace Np.Props.C19
 open Np.Ord
@@ -88,5 +89,38 @@ theorem proxy_monotone {K : Type} [LinearOrder K] [Zero K] [BEq K] {n : Nat} (gr
     (proxyArr (fun x y : K => decide (x < y)) graded reverse p).getD i 0 <
       (proxyArr (fun x y : K => decide (x < y)) graded reverse p).getD j 0 :=
   proxyArr_monotone_linearOrder graded reverse p i j hi hj h
+
+/-! ### decomposition, set_dimensions, tonumpy: what they denote (Np/Proofs/Dims.lean) -/
+section dims
+open MvPolynomial
+
+/-- a well-formed polynomial that `tonumpy` converts to `c` denotes the constant `C c` -/
+theorem tonumpy_is_the_constant {S : Type} [CommSemiring S] [BEq S] [LawfulBEq S] (p : Poly S) (c : S)
+    (hw : WF p) (h : toNumpy p = some c) : den p = C c := toNumpy_den p c hw h
+
+/-- **decompose**: slice `k` of `decompose p` holds term `k` of every element alone … -/
+theorem decompose_slice_is_term {R : Type} [CommSemiring R] {n : Nat} (p : Poly (Vec R n)) (k : Nat)
+    (hk : k < p.terms.length) (i : Fin n) (idx : Fin (p.terms.length * n)) (hidx : idx.val = k * n + i.val) :
+    denAt (decompose p) idx = denT p.names [((p.terms[k]).1, (p.terms[k]).2.get i)] :=
+  decompose_slice p k hk i idx hidx
+
+/-- … and the slices sum to the polynomial, element by element -/
+theorem decompose_sums_to_p {R : Type} [CommSemiring R] {n : Nat} (p : Poly (Vec R n)) (i : Fin n) :
+    ∑ k : Fin p.terms.length, denAt (decompose p) (sliceIdx p k i) = denAt p i := decompose_sum' p i
+
+/-- **set_dimensions towards more indeterminates** changes nothing but the name list -/
+theorem set_dimensions_more {S : Type} [CommSemiring S] [BEq S] [LawfulBEq S] (rc : Bool) (newNames : List Name)
+    (p : Poly S) (hw : WF p) (hn : newNames.Nodup) (hsub : p.names ⊆ newNames) :
+    den (setDimsAdd rc newNames p) = den p ∧ (setDimsAdd rc newNames p).names = newNames ∧
+      WF (setDimsAdd rc newNames p) :=
+  ⟨setDimsAdd_den rc newNames p hw hn hsub, setDimsAdd_names rc newNames p, WF_setDimsAdd rc newNames p hw hn hsub⟩
+
+/-- **set_dimensions towards fewer indeterminates** is substituting 0 for every dropped indeterminate -/
+theorem set_dimensions_fewer {S : Type} [CommSemiring S] [BEq S] [LawfulBEq S] (rc : Bool) (d : Nat) (p : Poly S)
+    (hw : WF p) (hd : d ≤ p.names.length) :
+    den (setDimsDrop rc d p) = bind₁ (fun x => if x ∈ p.names.take d then X x else 0) (den p) ∧
+      (setDimsDrop rc d p).names = p.names.take d ∧ WF (setDimsDrop rc d p) :=
+  ⟨setDimsDrop_den rc d p hw hd, setDimsDrop_names rc d p, WF_setDimsDrop rc d p hw hd⟩
+end dims
 
 end Np.Props.C19
